@@ -29,6 +29,8 @@ def obligations(tier):
         obs.append(dict(name="request-bytes-" + nm_, harness="req.c", entry="h_request", defs=["%s=%d" % kv for kv in d.items()], replace=["callback_read_header:stub_readheader"], unwind=270, backends=["cadical"], timeout=to, replay="model",
                         claim="http_request2 + callback_connected: the bytes handed to the writer are exactly method SP path SP HTTP/1.1 CRLF (name: value CRLF)* CRLF and then the body; HEAD is recognised", bounds="string lengths %s (contents symbolic, all byte values)" % d,
                         stubs=["network_connect/netbuf_* -> recording models", "strlen/stpcpy/strcmp -> length from object size", "callback_read_header -> stub"]))
+    obs.append(dict(name="findheader-first-exact-match", harness="find.c", entry="h_findheader", unwind=8, unwindset=["strcmp.0:5"], backends=["cadical"], timeout=to,
+                    claim="http_findheader: value of the first header whose name equals the key exactly, NULL if none (also for an empty list with a NULL array)", bounds="<= 3 headers, names and key of 0..2 characters", stubs=["strcmp: CBMC model"]))
     return obs
 SELFTESTS = [dict(name="str-models-vs-glibc", srcs=["/verif/models/selftest_str.c"], cflags=["-I/verif/models"], what="strcspn/strspn/strstr/stpcpy/sscanf(HTTP status line) models equal glibc on 2,000,000 strings")]
 TRUSTED = ["CBMC 6.11 C semantics", "cadical", "the reference header parser in harness/C08/hdr.c (ref_parse)", "C models of sscanf/strcspn/strspn/strstr"]
